@@ -176,10 +176,12 @@ var badDigitForms = []string{
 }
 
 var markers = []string{"", "", "", "", "'", "'", "H", "H"}
-var badMarkers = []string{"h", "''", "H'", "'H", "HH", "’"}
+var badMarkers = []string{"h", "''", "H'", "'H", "HH", "’", "|", "^", "$", "?", "*", "+", ")", "(", "[", "]", "\\", "{", "}", ".", "`", "\""}
 var prefixes = []string{"m/", "m/", "m/", "", ""}
 var badPrefixes = []string{"m", "M/", "/", "m//", "mm/", "m/m/", " m/"}
-var noise = []string{"0", "1", "8", "9", "m", "/", "H", "'", "x", "_", "+", "-", " ", "\n", "\x00", "٣", "o", "b", "\xff", "e", "."}
+var noise = []string{"0", "1", "8", "9", "m", "/", "H", "'", "x", "_", "+", "-", " ", "\n", "\x00", "٣", "o", "b", "\xff", "e", ".",
+	// characters with a meaning in regular expressions and format strings
+	"|", "^", "$", "?", "*", "(", ")", "[", "]", "\\", "{", "}", "%", "#", "d", "\\d"}
 
 func genString(t *rapid.T) strCase {
 	var sb strings.Builder
@@ -189,6 +191,9 @@ func genString(t *rapid.T) strCase {
 		sb.WriteString(h.OneOf(t, "badprefix", badPrefixes...))
 	}
 	n := rapid.IntRange(0, 6).Draw(t, "ncomp")
+	if h.Pick(t, "deep", 800, 1) == 1 { // very deep paths: 250..300 and around 1024 components
+		n = h.OneOf(t, "depth", 250, 254, 255, 256, 257, 258, 300, 1023, 1024, 1025)
+	}
 	for i := 0; i < n; i++ {
 		if i > 0 {
 			if h.Pick(t, "sep", 40, 1, 1) == 0 {
@@ -298,6 +303,9 @@ type pathCase struct {
 
 func genPath(t *rapid.T) pathCase {
 	n := rapid.IntRange(0, 12).Draw(t, "n")
+	if h.Pick(t, "deep", 150, 1) == 1 {
+		n = h.OneOf(t, "depth", 254, 255, 256, 257, 300, 1024, 1025)
+	}
 	p := make([]uint32, n)
 	for i := range p {
 		switch h.Pick(t, "ik", 3, 2, 4) {
@@ -386,7 +394,7 @@ func TestPaths(t *testing.T) {
 		Prop: "C10", Name: "path-roundtrip", N: 40000,
 		Gen: genPath, Check: checkPath,
 		Require: []string{"path/mixed", "path/empty"},
-		Rule:    "[]uint32 paths of length 0..12 with corner indices; non-trivial = non-empty path; distinct by path",
+		Rule:    "[]uint32 paths of length 0..12 (and 254..300, 1024, 1025) with corner indices; non-trivial = non-empty path; distinct by path",
 	})
 }
 
